@@ -51,6 +51,12 @@ one() {
     printf "%s\t%s\tsurvived-suite\n" "$id" "$desc" >> "$OUT"; rm -rf "$D" "$EV"; return
   fi
   first=$(order_for "$file")
+  if [ -n "${CHECKS_OVERRIDE:-}" ]; then
+    # second pass: only the listed checks that the relevant list did not already contain
+    f2=""
+    for c in $CHECKS_OVERRIDE; do case " $first " in *" $c "*) ;; *) f2="$f2 $c" ;; esac; done
+    first="$f2"
+  fi
   rest=""
   for c in C01 C02 C03 C04 C05 C06 C07 C08 C10 C11 C12 C13 C14 C15 C16 C17 C18 C19 C20 C09; do
     case " $first " in *" $c "*) ;; *) rest="$rest $c" ;; esac
